@@ -4,6 +4,7 @@ import (
 	"bytes"
 	"encoding/json"
 	"fmt"
+	"hash"
 
 	"github.com/free5gc/ike/security"
 	"github.com/free5gc/ike/security/dh"
@@ -226,6 +227,10 @@ func init() {
 		Replay: func(c *engine.Ctx, raw json.RawMessage) {
 			var cs c08Case
 			unmarshalCase(raw, &cs)
+			if cs.Op == -2 {
+				c08FailedThenRetry(c, cs.PRF, cs.Depth, c08Op{encrLen: cs.Hist[0], integIdx: cs.Hist[1], nonce: univ.Pat(32, 4), name: "derive"})
+				return
+			}
 			if cs.Op < 0 {
 				sa, skd := c08Fresh(cs.PRF, 1)
 				op := c08Op{encrLen: cs.Hist[0], integIdx: cs.Hist[1], nonce: univ.Pat(cs.Depth, cs.Depth+cs.PRF), name: "sweep"}
@@ -285,6 +290,55 @@ func c08Check(c *engine.Ctx, cs c08Case, sa *security.IKESAKey, skd []byte, ops 
 	}
 }
 
+// failingHash lets the first n Write calls through and fails afterwards.
+type failingHash struct {
+	hash.Hash
+	left int
+}
+
+func (f *failingHash) Write(p []byte) (int, error) {
+	if f.left <= 0 {
+		return 0, fmt.Errorf("injected prf failure")
+	}
+	f.left--
+	return f.Hash.Write(p)
+}
+
+// c08FailedThenRetry: the IKE SA's keyed PRF object (a public field the caller may have wrapped: a hardware
+// token, an instrumented hash) fails in round k of prf+; the derivation is refused. When the caller repairs the
+// object and derives again with the same Child SA object, the keys are the RFC keys.
+func c08FailedThenRetry(c *engine.Ctx, prfIdx, k int, op c08Op) {
+	c.Evals++
+	cs := c08Case{PRF: prfIdx, Pat: 1, Op: -2, Depth: k, Hist: []int{op.encrLen, op.integIdx}}
+	sa, skd := c08Fresh(prfIdx, 1)
+	good := sa.Prf_d
+	sa.Prf_d = &failingHash{Hash: good, left: k}
+	ch := &security.ChildSAKey{EncrKInfo: encr.StrToKType(univ.EncrName(op.encrLen))}
+	if op.integIdx >= 0 {
+		ch.IntegKInfo = integ.StrToKType(univ.IntegName(ref.Integs[op.integIdx]))
+	}
+	var err error
+	if pi := engine.Catch(func() { err = ch.GenerateKeyForChildSA(sa, op.nonce) }); pi != nil {
+		c.Count("failing_prf_object_panics(outside the listed properties)", 1)
+		return
+	}
+	if err == nil {
+		c.Count("prf_failure_not_reached", 1)
+		return
+	}
+	sa.Prf_d = good
+	if pi := engine.Catch(func() { err = ch.GenerateKeyForChildSA(sa, op.nonce) }); pi != nil || err != nil {
+		c.Count("retry_refused", 1)
+		return
+	}
+	got := fmt.Sprintf("ei=%x ai=%x er=%x ar=%x", ch.InitiatorToResponderEncryptionKey, ch.InitiatorToResponderIntegrityKey, ch.ResponderToInitiatorEncryptionKey, ch.ResponderToInitiatorIntegrityKey)
+	if want := c08Want(prfIdx, skd, op); got != want {
+		c.Violate("keymat/retry-after-refused-derivation", fmt.Sprintf("prf %s, %s: the prf object failed in round %d and the derivation was refused; the retry with the same Child SA object gives %s, RFC 7296 2.17 gives %s", ref.PRFs[prfIdx].Digest, op.name, k+1, trs(got), trs(want)), cs)
+		return
+	}
+	c.Count("retries_after_refused_derivation", 1)
+}
+
 // c08Sweep: every nonce length 0..300 from a fresh SA, all PRFs, four ESP configurations.
 func c08Sweep(c *engine.Ctx) {
 	for prfIdx := 0; prfIdx < 3; prfIdx++ {
@@ -313,6 +367,16 @@ func c08Sweep(c *engine.Ctx) {
 
 func runC08(c *engine.Ctx) {
 	c08Sweep(c)
+	for prfIdx := 0; prfIdx < 3; prfIdx++ {
+		for k := 0; k < 8; k++ {
+			if !c.Mine() {
+				continue
+			}
+			for _, cfg := range [][2]int{{32, 1}, {16, -1}, {32, 2}, {24, 0}} {
+				c08FailedThenRetry(c, prfIdx, k, c08Op{encrLen: cfg[0], integIdx: cfg[1], nonce: univ.Pat(32, 4), name: fmt.Sprintf("derive(aes%d,integ%d)", cfg[0]*8, cfg[1])})
+			}
+		}
+	}
 	ops := c08Ops()
 	if err := engine.SnapshotSelfTest(); err != nil {
 		panic(err)
